@@ -1,8 +1,14 @@
 /-
-  Lemmas/ElabFlat.lean — C13: typing's flattening of directly nested `Union[…]` / `Optional[…]`.  A tree of such
-  unions over supported, pairwise distinct leaves evaluates (in the model of Python's evaluation, `ev` with `mkUnion`
-  = flatten + de-duplicate) to ONE `typing.Union` of the leaves' objects, which `get_typing_lib_info` maps to the AnyOf
-  of the flattened documented alternatives (`Spec/Meaning.flatAlts`).  Induction over the tree; no depth bound.
+  Lemmas/ElabFlat.lean — C13, second lemma file.
+  (1) typing's / Python's flattening of directly nested `Union[…]` / `Optional[…]` / PEP 604 `|` between non-field
+      operands: a tree of such unions over supported, pairwise distinct leaves (operand kinds as `Spec/Meaning.pipeKind`
+      requires) evaluates - in the model of Python's evaluation, `ev` with `mkUnion` / `mkUType` = flatten + de-duplicate -
+      to ONE union object of the leaves' objects (`ev_flatten`), which `get_typing_lib_info` maps to the AnyOf of the
+      flattened documented alternatives (`gtli_flatten`, `Spec/Meaning.flatAlts`).  Induction over the tree with an
+      operand-kind invariant (`KindOk`); no depth bound.
+  (2) `_required` written out (`explicitReq_eq`, `finishClass_explicit`), "a supported declaration never drops its
+      field" (`elabFields_allField`), and the field / class level over the union of both proved regions
+      (`elabField_flatMeaning`, `elabFieldAt_meaningX`, `elabFields_sameX`).
 -/
 import TypedpyModel.Lemmas.Elab
 namespace Typedpy.Elab
